@@ -571,7 +571,12 @@ class RequestHandler(BaseProtocol, Generic[_Request]):
         """
         self._close = True
         if self._waiter:
+            # Idle connection (nothing parsed since the last response): there
+            # is no handler that would close it later, so close it now.
+            idle = not self._waiter.done()
             self._waiter.cancel()
+            if idle and self.transport is not None:
+                self.transport.close()
 
     def force_close(self) -> None:
         """Forcefully close connection."""
